@@ -244,7 +244,17 @@ pub fn run_c05(tier: Tier) -> Report {
         }
     });
     rep.acc.merge(acc);
-    rep.bound = format!("full product of a {al}-value axis alphabet on [0,1] (0, min subnormal, min normal, 2^-k for k=1..40, uniform grid of {} points) = {total} pixels", tier.pick(if light() { 56 } else { 200 }, 1500));
+    // three large images (65,539, 262,147 and 1281x721 pixels) cycling the product
+    if !light() {
+        for &big in BIG_SIZES.iter() {
+            let px: Vec<[f32; 3]> = (0..big as u64).map(|k| { let i = (k * 7919) % total; [a[(i / (al * al)) as usize], a[((i / al) % al) as usize], a[(i % al) as usize]] }).collect();
+            let mut acc = Acc::default();
+            check_rt(&mut acc, 0, &px);
+            crate::img::refine_violations(&mut acc, 0, &px, 1, &|x, it| check_rt(x, 0, it), &pxs_json);
+            rep.acc.merge(acc);
+        }
+    }
+    rep.bound = format!("three large images (65,539, 262,147 and 1281x721 pixels) and the full product of a {al}-value axis alphabet on [0,1] (0, min subnormal, min normal, 2^-k for k=1..40, uniform grid of {} points) = {total} pixels", tier.pick(if light() { 56 } else { 200 }, 1500));
     rep.rule = "LinearRgb::from(Xyb::from(LinearRgb)) on every pixel, |result - input| <= 5e-5 per component, dims preserved; the forward path is the oracle".into();
     rep.guard_bucket("returned within 5e-5");
     rep
